@@ -33,9 +33,11 @@ Print Assumptions c17_templates_closed.
 
 (* Second table obligation: for every legacy function (sample call with atomic operands) and operator, the
    migrated text parses to the expression an independent specification prescribes (new name, argument order,
-   constants, zero-based positions, the date/time forms of + and -; proofs/LegacyProofs.v legacy_spec, 105 lines
-   written from the function references), up to parentheses.  A swapped placeholder or a wrong rename breaks it. *)
-Theorem c17_table_meets_spec : forallb spec_ok legacy_spec = true.
+   constants, zero-based positions, the date/time forms of + and -; proofs/LegacyProofs.v legacy_spec, 88 lines written
+   from the function references, and legacy_spec_pinned, 25 lines whose target is what the migrator emits and goflow's
+   tests pin although it does NOT compute the legacy value: each names the known: class that shows it), up to
+   parentheses.  This pins WHICH expression a call becomes, not its value.  A swapped placeholder or a wrong rename breaks it. *)
+Theorem c17_table_meets_spec : forallb spec_ok all_spec = true.
 Proof. exact table_meets_spec. Qed.
 Print Assumptions c17_table_meets_spec.
 
@@ -104,10 +106,15 @@ Print Assumptions c17_wrap_only_parenthesizes.
    and that text parses (options DefaultToSelf / URLEncode off).  [too_long … = false]: no subexpression migrates to
    more than 100 times the length of the legacy expression plus 1000 bytes (the growth cap of the migrator; beyond it
    the expression is left unmigrated with an error; only nested datetime ± time, whose time operand is written twice,
-   gets there). *)
+   gets there).  [expression_size_ok s]: at most max_expression_tokens tokens and nesting max_expression_nesting (the
+   input limits of the migrator, constants regenerated into gen/LegacyTable.v; beyond them the expression is left
+   unmigrated with an error).  NOT modelled: the depth limit of the NEW parser (excellent.MaxParseDepth, recorded as
+   max_parse_depth): the code additionally reports an error when the migrated expression is too deep for it; where the
+   code reports no error the conclusion is what the code does. *)
 Theorem c17_parses : forall ctxmap raw_dates printable isln lower_rune s e t following,
   text_eqb s t_empty_literal = false ->
   parse1 s = Some e -> mt ctxmap raw_dates e = Some t ->
+  expression_size_ok s = true ->
   too_long ctxmap raw_dates (max_migrated_length s) e = false ->
   exists body, migrate_seg ctxmap raw_dates false false printable isln lower_rune (SExpr s) following = (64 :: body, false) /\
     (body = print3 t \/ body = 40 :: print3 t ++ [41]) /\ parse3 (print3 t) = Some t.
@@ -163,12 +170,14 @@ Theorem c17_literals_refuted_without_backslash :
 Proof. exact literals_refuted_newline_quote. Qed.
 Print Assumptions c17_literals_refuted_without_backslash.
 
-(* Text outside expressions: the migrated template is the concatenation of the per-token outputs, the error
+(* Text outside expressions, PER TOKEN (partial: nothing is said here about how the migrated template is scanned again;
+   for expression and identifier tokens that is c17_rescan_expression / c17_rescan_identifier, for body tokens it is false,
+   c17_body_rescan_refuted): the migrated template is the concatenation of the per-token outputs, the error
    flag is the disjunction of the per-token flags (each token is migrated knowing only the body text that follows
    it, [with_following]), a body token contributes exactly itself; a template
    consisting of body tokens only is unchanged.  (The tokens are those of the template scanner, property C12;
    with SetUnescapeBody(false) an `@@` stays `@@`.) *)
-Theorem c17_body_unchanged : forall ctxmap raw_dates default_to_self url_encode printable isln lower_rune segs,
+Theorem c17_body_unchanged_partial : forall ctxmap raw_dates default_to_self url_encode printable isln lower_rune segs,
   let mseg := migrate_seg ctxmap raw_dates default_to_self url_encode printable isln lower_rune in
   fst (migrate_template ctxmap raw_dates default_to_self url_encode printable isln lower_rune segs)
     = concat (map (fun p => fst (mseg (fst p) (snd p))) (with_following segs))
@@ -176,12 +185,12 @@ Theorem c17_body_unchanged : forall ctxmap raw_dates default_to_self url_encode 
     = existsb (fun p => snd (mseg (fst p) (snd p))) (with_following segs)
   /\ forall t f, mseg (SBody t) f = (t, false).
 Proof. exact body_unchanged. Qed.
-Print Assumptions c17_body_unchanged.
+Print Assumptions c17_body_unchanged_partial.
 
-Theorem c17_body_only : forall ctxmap raw_dates default_to_self url_encode printable isln lower_rune ts,
+Theorem c17_body_only_partial : forall ctxmap raw_dates default_to_self url_encode printable isln lower_rune ts,
   migrate_template ctxmap raw_dates default_to_self url_encode printable isln lower_rune (map SBody ts) = (concat ts, false).
 Proof. exact body_only. Qed.
-Print Assumptions c17_body_only.
+Print Assumptions c17_body_only_partial.
 
 (* Scanner level (reviewer's finding, repaired by /repo db33e56): what the template scanner of the new syntax
    (model of property C12: model/ExScanner.v; [p_scan] is its functional description, proofs/ExScannerProofs.v
@@ -196,6 +205,7 @@ Theorem c17_rescan_expression : forall isln lower_rune,
   separates_identifiers = true ->
   text_eqb s t_empty_literal = false ->
   parse1 s = Some e -> mt ctxmap raw_dates e = Some t -> scan_lits t = true ->
+  expression_size_ok s = true ->
   too_long ctxmap raw_dates (max_migrated_length s) e = false ->
   ExScannerProofs.nulfree (print3 t ++ f) ->
   let out := fst (migrate_seg ctxmap raw_dates false false printable isln lower_rune (SExpr s) f) in
@@ -203,6 +213,26 @@ Theorem c17_rescan_expression : forall isln lower_rune,
   pscan (out ++ f) = (ExScanner.IDENTIFIER, print3 t, f) \/ pscan (out ++ f) = (ExScanner.EXPRESSION, print3 t, f).
 Proof. exact rescan_expression. Qed.
 Print Assumptions c17_rescan_expression.
+
+Theorem c17_rescan_identifier : forall isln lower_rune,
+  isln ExScanner.eof = false -> isln ExScanner.r_at = false ->
+  forall ctxmap raw_dates printable n tr f,
+  separates_identifiers = true ->
+  canon (ctxmap n) = Some tr -> scan_lits tr = true ->
+  ExScannerProofs.nulfree (print3 tr ++ f) ->
+  let out := fst (migrate_seg ctxmap raw_dates false false printable isln lower_rune (SIdent n) f) in
+  let pscan := ExScannerProofs.p_scan isln lower_rune (Some run_top_levels) true in
+  pscan (out ++ f) = (ExScanner.IDENTIFIER, print3 tr, f) \/ pscan (out ++ f) = (ExScanner.EXPRESSION, print3 tr, f).
+Proof. exact rescan_identifier. Qed.
+Print Assumptions c17_rescan_identifier.
+
+(* the body clause at the scanner level is refuted (known finding body:new-toplevel-identifier-becomes-live, witness
+   `mail @fields.n1 now`): copied unchanged, but not read back as one body token by the scanner of the new syntax *)
+Theorem c17_body_rescan_refuted :
+  exists t, fst (migrate_template (fun n => lower n) false false false printable_approx isln_approx lower_cp [SBody t]) = t /\
+            ExScannerProofs.p_scan isln_approx lower_cp (Some run_top_levels) true t <> (ExScanner.BODY, t, []).
+Proof. exact body_rescan_refuted. Qed.
+Print Assumptions c17_body_rescan_refuted.
 
 (* table obligation: separateFrom is there (a revert of db33e56 breaks this) *)
 Theorem c17_separates_identifiers : separates_identifiers = true.
